@@ -99,11 +99,20 @@ def execute(version, script, token, user_plug, seed, thr_of=None, keybits=1024, 
 
     pending_burst, burst_seen, deferred = [0], [0], [0]
 
+    def plug_payload(mid, cur_thr, j):
+        # every other request under a threshold of 64 / 256 is exactly as long as the threshold: a vanilla server
+        # compresses from the threshold upwards, so that frame arrives compressed
+        base = len(prof.plugin_request(mid, 'verif:chan', b''))
+        if cur_thr in (64, 256) and (seed + j) % 2 == 0:
+            return prof.plugin_request(mid, 'verif:chan', b'\x01' * (cur_thr - base))
+        return prof.plugin_request(mid, 'verif:chan', b'\x01\x02')
+
     def factory(idx, sess, script=script):
         if idx >= 1 and second is not None:
             script = second             # the script of the connection an exception handler opens after the first one failed
         sc = TracingScript(run, prof, [])
         steps = [('expect', 2)]
+        cur_thr = None
         for j, st in enumerate(script):
             if st[0] == 'enc':
                 sid = (('\ufeff' if rng.random() < 0.3 else '') + 'srv%04x\u00e9' % rng.getrandbits(16)) if st[1] else '-'
@@ -132,13 +141,13 @@ def execute(version, script, token, user_plug, seed, thr_of=None, keybits=1024, 
                     steps += [('wait', lambda sc, k=k: sum(1 for p in sc.parsed if p['t'] == 'plugin_response') >= burst_seen[0] + k),
                               ('call', lambda sc, k=k: burst_seen.__setitem__(0, burst_seen[0] + k))]
             elif st[0] == 'comp':
-                t = thr_of(st[1])
+                t = cur_thr = thr_of(st[1])
                 steps += [('call', lambda sc, t=t: (run.ev('srv', s=['comp', st_idx(t)]), info.__setitem__('thr', t))),
                           ('send', prof.login_compress(t)), ('compress', t)]
             elif st[0] == 'plug':
                 n_before = [0]
                 steps += [('call', lambda sc, st=st, nb=n_before: (run.ev('srv', s=['plug', st[1]]), nb.__setitem__(0, len(sc.de.frames)))),
-                          ('send', prof.plugin_request(st[1], 'verif:chan', b'\x01\x02'))]
+                          ('send', plug_payload(st[1], cur_thr, j))]
                 if burst and j + 1 < len(script) and script[j + 1][0] == 'plug':
                     pending_burst[0] += 1           # consecutive requests go out back to back; the answers are awaited together
                 elif burst == 'xenc' and j + 1 < len(script) and script[j + 1][0] == 'enc':
